@@ -33,8 +33,8 @@ type c14Log struct {
 
 type c14Run struct {
 	w       *sim.World
-	decider string            // the plugin that applies verdicts; the others pass through
-	expose  map[string]bool   // "plugin/hook" -> wrapper exposed
+	decider string          // the plugin that applies verdicts; the others pass through
+	expose  map[string]bool // "plugin/hook" -> wrapper exposed
 	loads   map[string]int
 	unloads map[string]int
 }
